@@ -1622,7 +1622,7 @@ func applyGC(cells []*btpb.Cell, rule *btapb.GcRule, now bigtable.Timestamp) []*
 		return cells[:si]
 	case *btapb.GcRule_MaxNumVersions:
 		n := int(rule.MaxNumVersions)
-		if len(cells) > n {
+		if n >= 0 && len(cells) > n { // a negative count is not a usable rule
 			cells = cells[:n]
 		}
 		return cells
